@@ -6,6 +6,9 @@ ALL = [f"C{i:02d}" for i in range(1, 21)]
 
 # id -> (category, technique, level text, level note, design ref)
 BUILT = {
+ "C03": ("exploration", "runtime monitor: differential trace checking of per-line variables and counters (LineEvent hook vs reference fold) plus model-independent conservation monitors on scan_count/match_count",
+         "Generated variable-writing programs (assignments, tracking keys, stacks, aggregates with name qualifiers, onmatch) x files; after every line the visible variables, scan_count and match_count of the real run are compared with the reference evaluator; known findings F1/F9b attributed by exact emulation.",
+         "vfy/model.py is the oracle for variable folds; internal '_intx_' bookkeeping variables excluded", "DESIGN.md#c03"),
  "C05": ("fault_enumeration", "runtime monitor: real runs over the full error-policy truth table (2^6 policies x fault kind x fault position x validation-mode override) observed by LineEvent and ErrorHandler hooks",
          "Every cell of the policy table is executed; per run the monitors observe whether an exception escaped, what was collected (with line numbers), validity, where the run stopped, what the printers received and which lines matched, and compare with the conjunction of effective flags.",
          "truth table written from the property statement / docs/config.md; 'match' override: no claim about the faulting line's match", "DESIGN.md#c05"),
